@@ -140,4 +140,36 @@
 /* old index of a position */
 #define OIDX(s, pos) DIVESZ (OFF (pos) - OFF (ODATA (s)))
 
+/* ---- two participants / construction ------------------------------------------------------------ */
+#define DISTINCT(a, b) (!SAMEOBJ ((a), (b)) && !SAMEOBJ (DATA (a), DATA (b)) && !SAMEOBJ (DATA (a), (b)) && !SAMEOBJ (DATA (b), (a)))
+#define EXACT2_1(a, b, i) IFF (LIVE (i), IN_RANGE (WP[i], DATA (a), SZ (a)) || IN_RANGE (WP[i], DATA (b), SZ (b)) \
+   || (__CPROVER_old (WS[i]) != S_RAW && !IN_RANGE (WP[i], ODATA (a), OSZ (a)) && !IN_RANGE (WP[i], ODATA (b), OSZ (b))))
+#define EXACT2(a, b) (EXACT2_1 (a, b, 0) && EXACT2_1 (a, b, 1) && EXACT2_1 (a, b, 2))
+#define EXACTB2_(a, Na, b, Nb) IFF (WBL, (WB == DATA (a) && CAP (a) != (unsigned long) (Na)) || (WB == DATA (b) && CAP (b) != (unsigned long) (Nb)) \
+   || (__CPROVER_old (WBL) != 0 && !(WB == ODATA (a) && OCAP (a) != (unsigned long) (Na)) && !(WB == ODATA (b) && OCAP (b) != (unsigned long) (Nb))))
+#define EXACTB2(a, b) EXACTB2_ (a, CAP_N, b, CAP_N)
+#define OUTSIDE2_1(a, b, i) IMPLIES (!IN_RANGE (WP[i], DATA (a), CAP (a)) && !IN_RANGE (WP[i], ODATA (a), OCAP (a)) && !IN_RANGE (WP[i], DATA (b), CAP (b)) && !IN_RANGE (WP[i], ODATA (b), OCAP (b)) \
+   && WP[i] == __CPROVER_old (WP[i]), SAME_CELL (i))
+#define OUTSIDE2_UNTOUCHED(a, b) (OUTSIDE2_1 (a, b, 0) && OUTSIDE2_1 (a, b, 1) && OUTSIDE2_1 (a, b, 2))
+/* the object under construction holds no live element yet */
+#define RAW_OBJ(s) (IMPLIES (SAMEOBJ (WP[0], (s)), RAW (0)) && IMPLIES (SAMEOBJ (WP[1], (s)), RAW (1)) && IMPLIES (SAMEOBJ (WP[2], (s)), RAW (2)))
+#define EXACT_CTOR1(s, i) IFF (LIVE (i), IN_RANGE (WP[i], DATA (s), SZ (s)) || __CPROVER_old (WS[i]) != S_RAW)
+#define EXACT_CTOR(s) (EXACT_CTOR1 (s, 0) && EXACT_CTOR1 (s, 1) && EXACT_CTOR1 (s, 2))
+#define EXACTB_CTOR_(s, N) IFF (WBL, (WB == DATA (s) && CAP (s) != (unsigned long) (N)) || __CPROVER_old (WBL) != 0)
+#define EXACTB_CTOR(s) EXACTB_CTOR_ (s, CAP_N)
+/* construction from another container o (which may be emptied) */
+#define EXACT_CTOR2_1(s, o, i) IFF (LIVE (i), IN_RANGE (WP[i], DATA (s), SZ (s)) || IN_RANGE (WP[i], DATA (o), SZ (o)) || (__CPROVER_old (WS[i]) != S_RAW && !IN_RANGE (WP[i], ODATA (o), OSZ (o))))
+#define EXACT_CTOR2(s, o) (EXACT_CTOR2_1 (s, o, 0) && EXACT_CTOR2_1 (s, o, 1) && EXACT_CTOR2_1 (s, o, 2))
+#define EXACTB_CTOR2_(s, N, o, M) IFF (WBL, (WB == DATA (s) && CAP (s) != (unsigned long) (N)) || (WB == DATA (o) && CAP (o) != (unsigned long) (M)) || (__CPROVER_old (WBL) != 0 && !(WB == ODATA (o) && OCAP (o) != (unsigned long) (M))))
+#define EXACTB_CTOR2(s, o) EXACTB_CTOR2_ (s, CAP_N, o, CAP_N)
+/* nothing observable happened to the ghost state (failed construction) */
+#define GHOST_SAME (SAME_CELL (0) && SAME_CELL (1) && SAME_CELL (2) && WBL == __CPROVER_old (WBL))
+/* a default-state (empty, inlined) container */
+#define IS_DEFAULT_(s, N) (SZ (s) == 0 && CAP (s) == (unsigned long) (N) && DATA (s) == STORAGE (s))
+#define IS_DEFAULT(s) IS_DEFAULT_ (s, CAP_N)
+
+#define RAW_IDX(base, lo, hi)  (IMPLIES (IN_IDX (0, base, lo, hi), RAW (0)) && IMPLIES (IN_IDX (1, base, lo, hi), RAW (1)) && IMPLIES (IN_IDX (2, base, lo, hi), RAW (2)))
+#define LIVE_IDX(base, lo, hi) (IMPLIES (IN_IDX (0, base, lo, hi), LIVE (0)) && IMPLIES (IN_IDX (1, base, lo, hi), LIVE (1)) && IMPLIES (IN_IDX (2, base, lo, hi), LIVE (2)))
+#define FRAME_IDX(base, lo, hi) (IMPLIES (!IN_IDX (0, base, lo, hi), SAME_CELL (0)) && IMPLIES (!IN_IDX (1, base, lo, hi), SAME_CELL (1)) && IMPLIES (!IN_IDX (2, base, lo, hi), SAME_CELL (2)))
+
 #endif
